@@ -183,10 +183,15 @@ func (e *ev) runTpl(t *Tpl) {
 		leave("inheritance depth")
 	}
 	e.chain = append(e.chain, collectBlocks(pt))
-	// Only `use` is processed in the body of an extending template.
+	// In the body of an extending template `use` is processed, and macro
+	// definitions and imports take effect (its blocks may call them); nothing
+	// is rendered.
 	for _, n := range t.Body {
-		if n.K == "use" {
+		switch n.K {
+		case "use":
 			e.use(n)
+		case "macro", "import", "from":
+			e.node(n)
 		}
 	}
 	prev := e.name
